@@ -27,3 +27,22 @@ Theorem C20_silent_after_connect : forall c s id rl s1 e delivered s2,
   fst (cli_run c s) = [LErrorFetching; LFetched 0].
 Proof. exact cli_fetch_fails. Qed.
 Print Assumptions C20_silent_after_connect.
+
+(* %f.  A number line shows the float64 of C09 rounded to six decimals: for a finite value
+   m * 2^e the printed magnitude, in millionths, is m * 2^e * 10^6 exactly (e >= 0) or
+   rhe (m * 10^6) (2^-e), and rhe is rounding to the nearest integer with ties to even *)
+From Coq Require Import ZArith.
+From Flocq Require Import Core IEEE754.BinarySingleNaN IEEE754.Binary IEEE754.Bits.
+From GV Require Import Api.Float Api.Fixed Api.FixedFacts.
+
+Theorem C20_fixed6_value : forall s m e H,
+  fixed6_of_f64 (B754_finite 53 1024 s m e H) =
+  Some (s, if (0 <=? e)%Z then (Zpos m * 2 ^ e * 1000000)%Z else rhe (Zpos m * 1000000) (2 ^ (- e))).
+Proof. exact fixed6_finite. Qed.
+Print Assumptions C20_fixed6_value.
+
+Theorem C20_fixed6_rounding : forall num den, (0 < den)%Z ->
+  (2 * Z.abs (num - rhe num den * den) <= den)%Z /\
+  ((2 * Z.abs (num - rhe num den * den) = den)%Z -> Z.even (rhe num den) = true).
+Proof. exact rhe_spec. Qed.
+Print Assumptions C20_fixed6_rounding.
